@@ -1,25 +1,16 @@
-use vharness::bridge::*;
-use vharness::oracle::{pi1, snf, groups};
-use vharness::oracle::groups::Pres;
+use vharness::rng::Rng; use vharness::monitor::observe;
+use rust_dsymbols::fpgroups::invariants::abelian_invariants; use rust_dsymbols::fpgroups::free_words::FreeWord;
 fn main() {
-    let m = msym_from_text("<1.1:4 3:2 4,2 4,3 4,3 4:4 1,4,4 4>").unwrap();
-    println!("valid {} connected {}", m.is_valid_symbol(), m.is_connected());
-    let tb = pi1::textbook_pi1(&m);
-    println!("tb {:?}", tb.pres);
-    let fg = rust_dsymbols::fundamental_group::fundamental_group(&to_partial_dsym(&m));
-    let lp = Pres{ngens: fg.nr_generators(), rels: from_freewords(fg.relators.iter())};
-    println!("lib {:?}", lp);
-    for k in 1..=5 {
-        println!("k={} tb lowindex {:?} lib-pres lowindex {:?} tb bf {:?} lib bf {:?}", k,
-          groups::low_index_profile(&tb.pres,k,10_000_000), groups::low_index_profile(&lp,k,10_000_000),
-          groups::classes_of_index_bf(&tb.pres,k,1e8), groups::classes_of_index_bf(&lp,k,1e8));
+    for (dim, mag) in [(6usize,9i64),(10,3),(16,1)] {
+        let mut rng = Rng::new(dim as u64 * 100 + mag as u64);
+        loop {
+            let rows: Vec<Vec<i64>> = (0..dim).map(|_| (0..dim).map(|_| rng.range(-mag, mag)).collect()).collect();
+            let rels: Vec<Vec<i64>> = rows.iter().map(|r| { let mut w=vec![]; for (g,&e) in r.iter().enumerate() { for _ in 0..e.abs() { w.push(if e>0 {g as i64+1} else {-(g as i64+1)}); } } w }).collect();
+            let fw: Vec<FreeWord> = rels.iter().map(|w| FreeWord::new(w.iter().map(|&x| x as isize))).collect();
+            if let Err(p) = observe(|| abelian_invariants(dim, fw.iter())) {
+                println!("{}x{}: {} at {} :: {:?}", dim, dim, p.msg, p.loc, rows);
+                break;
+            }
+        }
     }
-    let rels = to_freewords(&lp.rels);
-    let n: Vec<usize> = rust_dsymbols::fpgroups::cosets::coset_tables(lp.ngens, &rels, 5).map(|t| t.len()).collect();
-    println!("repo coset_tables on lib pres: {:?}", n);
-    let rels = to_freewords(&tb.pres.rels);
-    let n: Vec<usize> = rust_dsymbols::fpgroups::cosets::coset_tables(tb.pres.ngens, &rels, 5).map(|t| t.len()).collect();
-    println!("repo coset_tables on tb pres: {:?}", n);
-    println!("orders {:?} {:?}", groups::order(&tb.pres, 100000), groups::order(&lp, 100000));
-    println!("ab {:?} {:?}", snf::abelian_invariants_of_presentation(tb.pres.ngens,&tb.pres.rels), snf::abelian_invariants_of_presentation(lp.ngens,&lp.rels));
 }
